@@ -165,7 +165,9 @@ def run_exact(case):
     C = Counter()
     viol = util.ViolList()
     sp = case["spec"]
-    M = specmod.build_model(sp, "incremental" if sp.get("poison") else "ctor")
+    # incrementally assembled models are handed to py_simulate_model as they are (not initialised yet): the first simulation
+    # after the last edit is the delay-aware one
+    M = specmod.build_model(sp, "incremental", initialize=False) if sp.get("poison") else specmod.build_model(sp, "ctor")
     if sp.get("poison"):
         C["models_built_after_refused_calls"] += 1
     species = M.get_species_list()
@@ -190,7 +192,7 @@ def run_exact(case):
         if len(viol) < 5:
             viol.append({"key": "C10/%s:%s" % (key, sim_key(sim) if sim.startswith(("delay", "psm")) else "no-delay-simulator"), "msg": "%s seed=%d: %s" % (sim, seed, msg)})
 
-    for sim in ["delay", "delay_continued", "psm_delay", "delay_volume", "psm_delay_volume", "ssa", "volume"]:
+    for sim in (["psm_delay"] if sp.get("poison") else []) + ["delay", "delay_continued", "psm_delay", "delay_volume", "psm_delay_volume", "ssa", "volume"]:
         for seed in case["seeds"] if sim in ("delay", "delay_volume") else case["seeds"][:4]:
             brandom.py_seed_random(seed)
             queue = None
@@ -221,6 +223,9 @@ def run_exact(case):
                 queue = res.py_get_delay_queue()
             elif sim == "psm_delay":
                 res = py_simulate_model(tp.copy(), Model=M, stochastic=True, delay=True, return_dataframe=False)
+                if not hasattr(res, "py_get_delay_queue"):
+                    bad("delay-request-ignored", "py_simulate_model(delay=True) on a model with delayed reactions returned a %s (no delay queue: the delayed parts were not queued)" % type(res).__name__, sim, seed)
+                    continue
                 queue = res.py_get_delay_queue()
                 slots = g["n"]
             elif sim == "delay_volume":
